@@ -393,7 +393,7 @@ func run(c *fw.Ctx) error {
 	if err != nil {
 		return err
 	}
-	sel := &selector{full: !c.Quick(), seed: strconv.FormatInt(c.Seed, 10), rate: 400}
+	sel := &selector{full: !c.Quick(), seed: strconv.FormatInt(c.Seed, 10), rate: 300}
 	r := &runner{c: c, rowSeen: map[uint64]struct{}{}}
 
 	// producer: enumerate -> programs -> waves
